@@ -72,6 +72,10 @@ class ZeroLinearOperator(LinearOperator):
         output_shape = _matmul_broadcast_shape(self.shape, rhs.shape)
         return torch.zeros(*output_shape, dtype=rhs.dtype, device=rhs.device)
 
+    def _permute_batch(self, *dims: int) -> LinearOperator:
+        sizes = [self.sizes[dim] for dim in dims] + self.sizes[-2:]
+        return self.__class__(*sizes, dtype=self._dtype, device=self._device)
+
     def _prod_batch(self, dim: int) -> LinearOperator:
         sizes = list(self.sizes)
         del sizes[dim]
@@ -123,39 +127,23 @@ class ZeroLinearOperator(LinearOperator):
         self: Float[LinearOperator, "*batch N N"],
         diag: Union[Float[torch.Tensor, "... N"], Float[torch.Tensor, "... 1"], Float[torch.Tensor, ""]],
     ) -> Float[LinearOperator, "*batch N N"]:
-        from linear_operator.operators.diag_linear_operator import DiagLinearOperator
+        from linear_operator.operators.diag_linear_operator import ConstantDiagLinearOperator, DiagLinearOperator
 
         if self.size(-1) != self.size(-2):
             raise RuntimeError("add_diag only defined for square matrices")
 
-        if self.ndimension() == 3:
-            if diag.ndimension() == 0:
-                diag = diag.view(1, 1).expand(self.size(0), self.size(1))
-            elif diag.ndimension() == 1:
-                diag = diag.unsqueeze(0).expand(self.size(0), self.size(1))
-            elif diag.ndimension() == 2:
-                diag = diag.expand(self.size(0), self.size(1))
+        try:
+            if diag.dim() and diag.shape[-1] != 1:
+                # a different entry for each diagonal element
+                res = DiagLinearOperator(diag.expand(self.shape[:-1]))
             else:
-                raise RuntimeError(
-                    "For a 3D tensor ({}), add_diag expects a 1D or 2D diag. "
-                    "Got size ({})".format(self.size(), diag.size())
-                )
-        else:
-            if diag.ndimension() == 0:
-                diag = diag.view(1).expand(self.size(0))
-            elif diag.ndimension() == 1:
-                diag = diag.expand(self.size(0))
-            else:
-                raise RuntimeError(
-                    "For a 3D tensor ({}), add_diag expects a 1D or 2D diag. "
-                    "Got size ({})".format(self.size(), diag.size())
-                )
-
-        res = DiagLinearOperator(diag)
-        if res.size() != self.size():
+                # a constant diagonal
+                res = ConstantDiagLinearOperator(diag.expand(*self.batch_shape, 1), diag_shape=self.size(-1))
+        except RuntimeError:
             raise RuntimeError(
-                "Diag dimensions are incompatible with the base LinearOperator dimensions. "
-                "Diag size corresponds to a {} Tensor - expected {}".format(res.size(), self.size())
+                "add_diagonal for LinearOperator of size {} received invalid diagonal of size {}.".format(
+                    self.shape, diag.shape
+                )
             )
         return res
 
@@ -200,6 +188,8 @@ class ZeroLinearOperator(LinearOperator):
         self: Float[LinearOperator, "*batch M N"],
         other: Union[float, Float[Tensor, "*batch2 M N"], Float[LinearOperator, "*batch2 M N"]],
     ) -> Float[LinearOperator, "... M N"]:
+        if not (torch.is_tensor(other) or isinstance(other, LinearOperator)):
+            return self  # a python scalar
         shape = torch.broadcast_shapes(self.shape, other.shape)
         return self.__class__(*shape, dtype=self._dtype, device=self._device)
 
